@@ -533,6 +533,13 @@ impl World {
 
     pub fn panic_violation(&mut self, i: usize, what: &str, msg: &str, loc: &str, ctx: &mut Ctx) {
         ctx.stat(Stat::Panics);
+        let (kind, detail) = self.panic_kind(i, what, msg, loc);
+        ctx.v("C20", kind, detail);
+    }
+
+    /// Signature and detail of a panic in a library call on node i (also used for calls made on
+    /// clones by the state monitors).
+    pub fn panic_kind(&self, i: usize, what: &str, msg: &str, loc: &str) -> (String, String) {
         // signature: first line of the message without numbers + location file
         let short: String = msg
             .split(", raft_id")
@@ -560,8 +567,7 @@ impl World {
         // circumstances that distinguish the recorded become_leader finding from any other way
         // of reaching the same assertion
         let loose_pending = self.live(i).map(|l| l.held.iter().any(|h| h.synced)).unwrap_or(false);
-        ctx.v(
-            "C20",
+        (
             format!(
                 "panic in {} at {} `{}`: {}{}",
                 what,
@@ -577,7 +583,7 @@ impl World {
                 }
             ),
             format!("node {} panicked in {}: {} @ {}", i + 1, what, msg, loc),
-        );
+        )
     }
 
     /// Runs one API call on node i under catch_unwind with pre/post observation and the
